@@ -47,14 +47,15 @@ def SoftLink(name, path, **kw): return Node('slink', name, path=path, **kw)
 
 class Image:
     def __init__(self, nblocks=1760, ffs=False, intl=False, dirc=False, volname=b"vol", rng=None,
-                 placement="random", chain_order="random", garbage=True, root_date=(9000, 1, 2)):
+                 placement="random", chain_order="random", garbage=True, root_date=(9000, 1, 2), amiga_root=False):
         self.n = nblocks; self.ffs = ffs; self.intl_flag = intl; self.dirc = dirc
         self.intl = intl or dirc
         self.volname = volname; self.rng = rng or random.Random(0)
         self.placement = placement; self.chain_order = chain_order; self.garbage = garbage
         self.root_date = root_date
         self.blocks = {}
-        self.rootblk = nblocks // 2
+        # AmigaDOS puts the root of a volume with 2 reserved blocks at (n + 1) // 2 (same block as n // 2 for even sizes)
+        self.rootblk = (nblocks + 1) // 2 if amiga_root else nblocks // 2
         self.used = {0, 1, self.rootblk}
         self.dbs = 512 if ffs else 488
         self.root = Dir(b"")
